@@ -3,6 +3,7 @@ package rules
 import (
 	"fmt"
 	"go/ast"
+	"go/constant"
 	"go/token"
 	"go/types"
 	"sort"
@@ -331,7 +332,7 @@ func (e *Env) RPackageNamesOwnership() {
 			return true
 		})
 	}
-	e.Run.Floor("R-OWN", "packageNames accesses", n, 5)
+	e.Run.Floor("R-OWN", "packageNames accesses", n, 3)
 }
 
 // RRestoreIdent: the expanded selector mirrors restore's own SelectorExpr case and uses the
@@ -375,34 +376,84 @@ func (e *Env) RRestoreIdent() {
 				fmt.Sprintf("child %s restored from %s with literals %v; expected a fresh identifier %s with %v", ev.Field, ev.Expr, ev.Lit, want, lit))
 		}
 	}
-	// name lookup: name = r.packageNames[n.Path] under n.Path != r.Path; "." → bare
+	// name lookup, independent of how the function is laid out (nested ifs or guard clauses):
+	//  (1) the X child's identifier is built from a variable that is assigned r.packageNames[n.Path];
+	//  (2) some condition compares n.Path with r.Path (local package stays bare);
+	//  (3) some condition compares that variable with "." (dot-imports stay bare);
+	//  (4) the avoid-table test guards a panic.
 	pkg := e.Prog.Pkg(load.PkgDecorator)
 	c := e.Sib.Ctx[load.PkgDecorator]
+	info := pkg.TypesInfo
 	fd := load.FuncDecl(pkg, "FileRestorer", "restoreIdent")
-	lookup, dot, avoidCheck := false, false, false
+	recv := info.Defs[fd.Recv.List[0].Names[0]]
+	var nObj types.Object
+	if len(fd.Type.Params.List) > 0 && len(fd.Type.Params.List[0].Names) > 0 {
+		nObj = info.Defs[fd.Type.Params.List[0].Names[0]]
+	}
+	isNPath := func(x ast.Expr) bool { p, ok := c.Path(x, nObj); return ok && p == "Path" }
+	isRPath := func(x ast.Expr) bool { p, ok := c.Path(x, recv); return ok && p == "Path" }
+	// variable passed to NewIdent for X
+	var nameObj types.Object
 	ast.Inspect(fd.Body, func(n ast.Node) bool {
-		is, ok := n.(*ast.IfStmt)
-		if !ok {
+		call, ok := n.(*ast.CallExpr)
+		if !ok || !schema.IsMethod(c.Callee(call), load.PkgDecorator, "FileRestorer", "restoreNode") || len(call.Args) != 5 {
 			return true
 		}
-		cond := c.ExprStr(is.Cond)
-		if len(is.Body.List) == 1 {
-			body := stmtNorm(c, is.Body.List[0])
-			if cond == "n.Path != r.Path" && body == "name = r.packageNames[n.Path]" {
-				lookup = true
+		if f, ok := schema.StringLit(call.Args[2]); ok && f == "X" {
+			if inner, ok := call.Args[0].(*ast.CallExpr); ok && len(inner.Args) == 1 {
+				if id, ok := inner.Args[0].(*ast.Ident); ok {
+					nameObj = info.Uses[id]
+				}
 			}
-			if cond == `name == "."` && body == `name = ""` {
-				dot = true
+		}
+		return true
+	})
+	lookup, localCmp, dot, avoidCheck := false, false, false, false
+	ast.Inspect(fd.Body, func(n ast.Node) bool {
+		switch x := n.(type) {
+		case *ast.AssignStmt:
+			for i, l := range x.Lhs {
+				id, ok := l.(*ast.Ident)
+				if !ok || i >= len(x.Rhs) {
+					continue
+				}
+				obj := info.Defs[id]
+				if obj == nil {
+					obj = info.Uses[id]
+				}
+				if obj != nameObj || nameObj == nil {
+					continue
+				}
+				if ix, ok := x.Rhs[i].(*ast.IndexExpr); ok {
+					if p, ok := c.Path(ix.X, recv); ok && p == "packageNames" && isNPath(ix.Index) {
+						lookup = true
+					}
+				}
 			}
-			if cond == `avoid[parentName+"."+parentField]` && c.PanicsOnly(is.Body.List) {
+		case *ast.BinaryExpr:
+			if x.Op == token.EQL || x.Op == token.NEQ {
+				if (isNPath(x.X) && isRPath(x.Y)) || (isRPath(x.X) && isNPath(x.Y)) {
+					localCmp = true
+				}
+				for _, pair := range [][2]ast.Expr{{x.X, x.Y}, {x.Y, x.X}} {
+					if id, ok := pair[0].(*ast.Ident); ok && info.Uses[id] == nameObj && nameObj != nil {
+						if lit, ok := schema.StringLit(pair[1]); ok && lit == "." {
+							dot = true
+						}
+					}
+				}
+			}
+		case *ast.IfStmt:
+			if c.ExprStr(x.Cond) == `avoid[parentName+"."+parentField]` && c.PanicsOnly(x.Body.List) {
 				avoidCheck = true
 			}
 		}
 		return true
 	})
 	pos := e.Prog.Pos(fd.Pos())
-	e.Run.Check("R-IDENT", "restoreIdent takes the qualifier from the path→name table for non-local paths", pos, lookup, "expected `if n.Path != r.Path { name = r.packageNames[n.Path] }`")
-	e.Run.Check("R-IDENT", "restoreIdent leaves dot-imported names bare", pos, dot, "expected `if name == \".\" { name = \"\" }`")
+	e.Run.Check("R-IDENT", "restoreIdent takes the qualifier from the path→name table for non-local paths", pos, lookup && localCmp,
+		fmt.Sprintf("the identifier used for the selector's X must be assigned from r.packageNames[n.Path] (found: %v) and n.Path must be compared with r.Path (found: %v)", lookup, localCmp))
+	e.Run.Check("R-IDENT", "restoreIdent leaves dot-imported names bare", pos, dot, "the looked-up name must be compared with \".\"")
 	e.Run.Check("R-IDENT", "restoreIdent rejects a path on a declaring position", pos, avoidCheck, "expected the avoid-table check to panic before an *ast.Ident-typed position receives a selector")
 }
 
@@ -546,8 +597,8 @@ func (e *Env) RRoleFilter() {
 	for _, k := range sortedKeys(avoid) {
 		e.Run.Check("R-ROLE", "avoid entry "+k+" names an *Ident-typed position", e.Prog.Pos(apos), used[k], "a key that names no position (typo, renamed field) means the real position is unprotected")
 	}
-	e.Run.Floor("R-ROLE", "child positions checked against avoid", n, 180)
-	e.Run.Floor("R-ROLE", "avoid entries", len(avoid), 9)
+	e.Run.Floor("R-ROLE", "child positions checked against avoid", n, 150)
+	e.Run.Floor("R-ROLE", "avoid entries", len(avoid), 8)
 }
 
 // RResolvePath: hand-written resolution chain.
@@ -610,16 +661,24 @@ func (e *Env) RResolvePath() {
 }
 
 // stripVendorAnchored: every search for the vendor element is anchored on path-element
-// boundaries: "/vendor/" anywhere, or "vendor/" only as a prefix.
+// boundaries: "/vendor/" anywhere, or "vendor/" only as a prefix. Search strings are evaluated as
+// constants (a named constant or "/"+vendorDir is the same as a literal).
 func (e *Env) stripVendorAnchored() {
 	pkg := e.Prog.Pkg(load.PkgDecorator)
 	c := e.Sib.Ctx[load.PkgDecorator]
+	info := pkg.TypesInfo
 	fd := load.FuncDecl(pkg, "", "stripVendor")
 	if fd == nil || fd.Body == nil {
 		e.Run.Violation("R-RESOLVE", "stripVendor exists", "", "function missing")
 		return
 	}
 	n := 0
+	constStr := func(x ast.Expr) (string, bool) {
+		if tv, ok := info.Types[x]; ok && tv.Value != nil && tv.Value.Kind() == constant.String {
+			return constant.StringVal(tv.Value), true
+		}
+		return "", false
+	}
 	ast.Inspect(fd.Body, func(nd ast.Node) bool {
 		call, ok := nd.(*ast.CallExpr)
 		if !ok {
@@ -629,7 +688,7 @@ func (e *Env) stripVendorAnchored() {
 		if fn == nil || fn.Pkg() == nil || fn.Pkg().Path() != "strings" || len(call.Args) != 2 {
 			return true
 		}
-		lit, ok := schema.StringLit(call.Args[1])
+		lit, ok := constStr(call.Args[1])
 		if !ok || !strings.Contains(lit, "vendor") {
 			return true
 		}
@@ -645,15 +704,22 @@ func (e *Env) stripVendorAnchored() {
 			"the vendor element must be matched as \"/vendor/\" (anywhere) or as the prefix \"vendor/\": an unanchored match also strips paths such as example.com/govendor/x")
 		return true
 	})
-	e.Run.Floor("R-RESOLVE", "vendor searches in stripVendor", n, 3)
-	// the slice offset uses len("vendor/") from the element start
-	var rets []string
-	for _, st := range fd.Body.List {
-		if rs, ok := st.(*ast.ReturnStmt); ok {
-			rets = append(rets, stmtNorm(c, rs))
+	e.Run.Floor("R-RESOLVE", "vendor searches in stripVendor", n, 1)
+	// the last occurrence decides (nested vendor directories): a search anywhere in the path must be LastIndex
+	usesLast := false
+	ast.Inspect(fd.Body, func(nd ast.Node) bool {
+		if call, ok := nd.(*ast.CallExpr); ok {
+			if fn := c.Callee(call); fn != nil && funcKey(fn) == "strings.LastIndex" {
+				usesLast = true
+			}
+			if fn := c.Callee(call); fn != nil && funcKey(fn) == "strings.Index" {
+				usesLast = false
+				n = -100
+			}
 		}
-	}
-	e.Run.Check("R-RESOLVE", "stripVendor returns the suffix after the vendor element", e.Prog.Pos(fd.Pos()), len(rets) == 1 && rets[0] == `return path[i+len("vendor/"):]`, fmt.Sprint(rets))
+		return true
+	})
+	e.Run.Check("R-RESOLVE", "stripVendor strips up to the last vendor element", e.Prog.Pos(fd.Pos()), usesLast && n > 0, "the effective import path starts after the final vendor element: the position must come from strings.LastIndex")
 }
 
 // RResolverClauses: the necessary clauses of the two decorator resolvers are present.
@@ -706,18 +772,48 @@ func (e *Env) RResolverClauses() {
 	})
 	check(load.PkgGoast, "DecoratorResolver", "ResolveIdent", []clause{
 		{"import-table failures surface", `if err != nil { return "",err; }`},
-		{"only the Sel of a selector is resolved", `if !ok || parentField != "Sel" { return "",nil; }`},
+		{"only the Sel of a selector is resolved", `parentField != "Sel"`},
 		{"a locally declared X is not a package", `if xid.Obj != nil { return "",nil; }`},
-		{"name looked up in the file's import table", "path,ok := imports[xid.Name]"},
+		{"name looked up in the file's import table", "imports[xid.Name]"},
 	})
 	check(load.PkgGoast, "DecoratorResolver", "imports", []clause{
-		{"dot-imports are refused", `case "."`},
-		{"dot-import error", `outer = fmt.Errorf("goast.DecoratorResolver unsupported dot-import found for %s", path)`},
+		{"dot-imports are refused", `fmt.Errorf("goast.DecoratorResolver unsupported dot-import found for %s", path)`},
 		{"two imports under one name are refused", `if p,ok := imports[name]; ok { outer = fmt.Errorf(`},
 		{"cgo import skipped", `if path == "C" { return false; }`},
-		{"unnamed import: name from the package-name resolver, its error surfaces", "name,err = r.RestorerResolver.ResolvePackage(path)"},
+		{"unnamed import: name from the package-name resolver", "r.RestorerResolver.ResolvePackage(path)"},
 		{"errors are returned, not swallowed", "if outer != nil { return nil,outer; }"},
 	})
+	// the dot-import refusal is tied to the name "." (switch arm or comparison)
+	pkgG := e.Prog.Pkg(load.PkgGoast)
+	cG := schema.CtxFor(e.Prog, load.PkgGoast)
+	fdI := load.FuncDecl(pkgG, "DecoratorResolver", "imports")
+	dotTied := false
+	if fdI != nil {
+		ast.Inspect(fdI.Body, func(n ast.Node) bool {
+			var body []ast.Stmt
+			switch x := n.(type) {
+			case *ast.CaseClause:
+				for _, v := range x.List {
+					if lit, ok := schema.StringLit(v); ok && lit == "." {
+						body = x.Body
+					}
+				}
+			case *ast.IfStmt:
+				if be, ok := x.Cond.(*ast.BinaryExpr); ok && be.Op == token.EQL {
+					if lit, ok := schema.StringLit(be.Y); ok && lit == "." {
+						body = x.Body.List
+					}
+				}
+			}
+			for _, st := range body {
+				if strings.Contains(stmtNorm(cG, st), "unsupported dot-import") {
+					dotTied = true
+				}
+			}
+			return true
+		})
+	}
+	e.Run.Check("R-RESOLVER", "goast.imports: the dot-import error is raised exactly for the name \".\"", "", dotTied, "no branch on name == \".\" that produces the dot-import error")
 }
 
 var _ = sort.Strings
